@@ -120,6 +120,7 @@ type model struct {
 	nestedRan, removalThenPub, shardShare, delivered bool
 	removed                                          map[int]bool
 	exclSeq, exclOnce                                int
+	maxRegs                                          int
 }
 
 func newModel(c *Case) *model {
@@ -448,6 +449,9 @@ func Run(c *Case) (Result, []*vkit.Violation) {
 		// registry agreement over all types
 		for _, t := range busmodel.Types {
 			want := len(m.regs[t.Index])
+			if want > m.maxRegs {
+				m.maxRegs = want
+			}
 			if got := t.Count(e.bus); got != want {
 				e.fail("after %s %+v: HandlerCount[%s] = %d, model %d", path, o, t.Name, got, want)
 			}
@@ -472,6 +476,12 @@ func Run(c *Case) (Result, []*vkit.Violation) {
 	}
 	if m.delivered {
 		res.Classes = append(res.Classes, "delivered")
+	}
+	if m.maxRegs >= 9 {
+		res.Classes = append(res.Classes, "nine_or_more_registrations_of_one_type")
+	}
+	if m.maxRegs >= 33 {
+		res.Classes = append(res.Classes, "thirty_three_or_more_registrations_of_one_type")
 	}
 	return res, e.viol
 }
